@@ -53,7 +53,8 @@ class C18(PropBase):
             "every spelling of the sp / ip registers; unknown names (empty, foreign-architecture names, ASCII-case variants of every own name, "
             "decorated); read cases `R arch fill len` = MinidumpContext::read for every ProcessorArchitecture number of format.rs plus unknown "
             "numbers x context_flags {every ContextFlagsCpu constant, own | low bits / XSTATE / undefined bits / a second CPU bit, 0, all-ones} "
-            "x buffer lengths around every context struct's size; write sequences `W type n1=v1,...` = every name once (both orders), "
+            "x buffer lengths around every context struct's size, little- and big-endian; decode cases `D arch off width flags L|B` = read of the "
+            "8 KiB byte pattern (every word distinct) with the flags at the type's offset, every register reported; write sequences `W type n1=v1,...` = every name once (both orders), "
             "alias / canonical / alias triples for every alias, random sequences of 2-14 calls incl. refused names, on the pattern and on "
             "filled contexts; non-trivial = set_register accepted the name / read produced a context; "
             "distinct = distinct case lines")
@@ -343,12 +344,31 @@ class C18(PropBase):
                 for ln in (8192, sz, sz - 1):
                     cases.append("R %d %d %d B" % (a, f, ln))
                     nr += 1
+        # reads of the byte PATTERN (every 32-bit word distinct) with the flags written at the type's context_flags offset, both byte
+        # orders; every register of the context read is reported (the deserialisation model against the real derive(Pread))
+        nd = 0
+        for v in sorted(T):
+            if "flags_off" not in T[v]:
+                continue                      # the translator aborted: no layout to aim the flags with
+            own = T[v]["cpu_flags"][T[v]["type"]]
+            fwd = T[v]["flags_width"]
+            hi = (0xabcd << 32) if fwd == 64 else 0
+            for a in rarchs[v]:
+                for e in ("L", "B"):
+                    for fl in (own, own | 0x41, own | 0x200 | hi, own ^ 0x100, own | cpuf[(a + 3) % len(cpuf)], 0):
+                        cases.append("D %d %d %d %d %s" % (a, T[v]["flags_off"], fwd, fl, e))
+                        nd += 1
+        for a in (2, 77, 0x8004):
+            cases.append("D %d 0 32 65536 L" % a)
+            cases.append("D %d 0 32 65536 B" % a)
+            nd += 2
+        dist["decode_cases"] = nd
         dist["read_cases"] = nr
         # de-duplicate S:a,a (a HashSet cannot hold a name twice)
         out = []
         for c in cases:
             f = c.split(" ")
-            if f[0] in ("R", "W"):
+            if f[0] in ("R", "W", "D"):
                 out.append(c)
                 continue
             if f[2].startswith("S:") and f[2] != "S:":
@@ -405,6 +425,46 @@ class C18(PropBase):
             return "%s: get_instruction_pointer() = %s on a context whose every word is %#x" % (who, d["rip"], fill)
         return None
 
+    def _oracle_decode(self, case, ans):
+        f = case.split(" ")
+        arch, fwd, flags, big = int(f[1]), int(f[3]), int(f[4]), f[5] == "B"
+        if ans.startswith("P;;"):
+            return "MinidumpContext::read panicked: %s" % ans[3:200]
+        d = parse(ans)
+        T = names_table()
+        want = self.ARCH_VARIANT.get(arch)
+        who = "MinidumpContext::read(architecture %#x, the byte pattern with context_flags %#x, %s-endian)" % (arch, flags, "big" if big else "little")
+        rdv = d.get("rd")
+        if rdv in ("RF", "UC"):
+            if want is not None and (flags & 0xffffff00) == T[want]["cpu_flags"][T[want]["type"]]:
+                return "%s: a full-size buffer carrying the type's own CPU flag is refused (%s); %s is a supported context type" % (who, rdv, want)
+            if want is None and rdv != "UC":
+                return "%s: an architecture without a context type is not reported as UnknownCpuContext" % who
+            return None
+        if rdv != want or any(k not in d for k in ("regs", "sp", "ip")):
+            return "%s: produced %s; the architecture's context type is %s" % (who, ans[:60], want)
+        t = T[rdv]
+        pairs = [p.split(":") for p in lst(d["regs"])]
+        if [p[0] for p in pairs] != t["registers"]:
+            return "%s: registers() of the context read lists %s" % (who, [p[0] for p in pairs])
+        w = t["width"]
+        bsw = lambda x: int.from_bytes(x.to_bytes(4, "little"), "big")
+        vals = {}
+        for n, v in pairs:
+            v = int(v)
+            halves = [v] if w == 32 else ([v >> 32, v & 0xffffffff] if big else [v & 0xffffffff, v >> 32])
+            words = [bsw(h) if big else h for h in halves]          # the pattern words this register was read from, in byte order
+            if any(x >> 24 != 0x5A or (x & 0xffffff) >= 2048 for x in words) or (w == 64 and words[1] != words[0] + 1):
+                return "%s: register %s = %#x is not a run of %d consecutive bytes of the pattern" % (who, n, v, w // 8)
+            vals[n] = v
+        if len(set(vals.values())) != len(vals):
+            return "%s: two registers of the context read hold the same bytes" % who
+        al = t["aliases"]
+        for tag, nm in (("sp", t["sp_name"]), ("ip", t["ip_name"])):
+            if int(d[tag]) != vals.get(al.get(nm, nm)):
+                return "%s: the dedicated %s accessor reads %s, register %s holds %s" % (who, tag, d[tag], nm, vals.get(al.get(nm, nm)))
+        return None
+
     def _oracle_writes(self, case, ans):
         f = case.split(" ")
         variant = f[1]
@@ -441,6 +501,8 @@ class C18(PropBase):
             return self._oracle_read(case, ans)
         if case.startswith("W "):
             return self._oracle_writes(case, ans)
+        if case.startswith("D "):
+            return self._oracle_decode(case, ans)
         variant, name, vspec, value = case.split(" ")[:4]
         if ans.startswith("P;;"):
             return "%s: a method panicked outside the guarded reads: %s" % (variant, ans[3:200])
